@@ -164,6 +164,13 @@ deliver_concrete!(c13_deliver_v255_nr, 255);
 deliver_concrete!(c13_deliver_v11_errcode_nr, 11);
 deliver_concrete!(c13_deliver_v12_errcode_nr, 12);
 deliver_concrete!(c13_deliver_v14_pagefault_nr, 14);
+// every other vector that pushes an error code (SDM vol.3A table 6-1): #TS, #GP, #AC, #CP, #VC, #SX
+deliver_concrete!(c13_deliver_v10_errcode_nr, 10);
+deliver_concrete!(c13_deliver_v13_errcode_nr, 13);
+deliver_concrete!(c13_deliver_v17_errcode_nr, 17);
+deliver_concrete!(c13_deliver_v21_errcode_nr, 21);
+deliver_concrete!(c13_deliver_v29_errcode_nr, 29);
+deliver_concrete!(c13_deliver_v30_errcode_nr, 30);
 
 /// Vectors 8 and 18: the stub must call the handler and then never return (it panics).
 #[kani::proof]
